@@ -170,7 +170,10 @@ func (g *gate) yield() {
 	me := goid()
 	g.mu.Lock()
 	if i, ok := g.main[me]; !ok || i != g.holder {
-		g.stats.Foreign++ // a goroutine started by the code under test, or a call that does not have the turn
+		// a goroutine started by the code under test, or a call that does not have the turn
+		if !ok && g.busy != nil { // (busy is set once the service is constructed)
+			g.stats.Foreign++
+		}
 		g.mu.Unlock()
 		return
 	}
@@ -320,7 +323,7 @@ func RunHistoryYield(t *testing.T, yh YHistory) (Observed, YieldStats) {
 		svc, err := standardattester.New(ctx,
 			standardattester.WithLogLevel(zerolog.TraceLevel),
 			standardattester.WithMonitor(nullmetrics.New()),
-			standardattester.WithProcessConcurrency(1),
+			standardattester.WithProcessConcurrency(h.Concurrency()),
 			standardattester.WithChainTime(yieldChainTime{mocks.NewChainTime(h.SPE), g}),
 			standardattester.WithSpecProvider(specProvider{h.SPE}),
 			standardattester.WithAttestationDataProvider(e),
